@@ -123,6 +123,9 @@ func runCheck(prop, tier string, seed int64, workers int) int {
 	if prop == "C10" {
 		return runC10(rep, p, tier)
 	}
+	if prop == "C08" {
+		return runC08(rep, p, tier)
+	}
 	if prop == "C18" {
 		return runC18(rep, p, tier)
 	}
@@ -435,5 +438,91 @@ func runC18(rep *engines.Report, p *pool.Pool, tier string) int {
 	rep.Coverage["exhaustive"] = rep.Inconclusive == 0
 	rep.Coverage["rule"] = "complete matrix key kind {enc-age, enc-pgp, sig-minisign, sig-pgp} x password class x {generate+parse both halves, string and stream round trips on 0/5/70000 bytes, altered data, cross-pair rejection with a second independently generated pair, every other password of the list must not open the private half}; distinct_nontrivial = distinct (kind, password class, sub-check) executed. Key material itself is two fresh random samples per cell, not an enumeration."
 	rep.Assumptions = []string{"key material: fresh random pairs per run (not enumerated)", "passwords from classes {empty, 1 char, 64 ASCII, multi-byte, 1 KiB}"}
+	return rep.Finish()
+}
+
+func runC08(rep *engines.Report, p *pool.Pool, tier string) int {
+	rep.Level = "fault_enumeration"
+	type pl struct{ sig, enc, comp string }
+	pls := []pl{{"minisign", "", ""}, {"pgp", "", ""}, {"pgp", "age", "gzip"}}
+	policy, shards := "quick", 16
+	budget := 4 * time.Minute
+	if tier != "quick" {
+		pls = nil
+		for _, s := range []string{"minisign", "pgp"} {
+			for _, e := range []string{"", "age", "pgp"} {
+				for _, c := range []string{"", "gzip", "zstandard"} {
+					pls = append(pls, pl{s, e, c})
+				}
+			}
+		}
+		policy, shards = "all", 64
+		budget = 25 * time.Minute
+	}
+	jobs := []interface{}{}
+	for _, x := range pls {
+		cfg := rig.Config{Signature: x.sig, Encryption: x.enc, Compression: x.comp, RecordSize: 20}
+		if x.enc == "" {
+			jobs = append(jobs, &engines.C08Job{Cfg: cfg, Policy: "forge", NShards: 1})
+		}
+		for sh := 0; sh < shards; sh++ {
+			jobs = append(jobs, &engines.C08Job{Cfg: cfg, Policy: policy, Shard: sh, NShards: shards})
+		}
+	}
+	deadline := time.Now().Add(budget)
+	p.Stop = func() bool { return time.Now().After(deadline) }
+	p.JobTimeout = 10 * time.Minute
+	evals, skipped, accepted, dropped := 0, 0, 0, 0
+	distinct := map[string]bool{}
+	harness := ""
+	p.Map("c08", jobs, func(i int, resp *pool.Response) {
+		job := jobs[i].(*engines.C08Job)
+		if resp.Err == "skipped" {
+			skipped++
+			return
+		}
+		if resp.Err != "" {
+			rep.Inconclusive++
+			fmt.Fprintf(os.Stderr, "[C08] inconclusive: %s\n", resp.Err)
+			return
+		}
+		var r engines.C08Res
+		_ = json.Unmarshal(resp.Result, &r)
+		if r.Harness != "" {
+			harness = r.Harness
+			return
+		}
+		evals += r.Evals
+		accepted += r.Accepted
+		dropped += r.Dropped
+		for _, d := range r.Distinct {
+			distinct[d] = true
+		}
+		for _, v := range r.Viol {
+			mj := *job
+			if v.Mut != nil {
+				mj.Policy, mj.Shard, mj.NShards, mj.Muts = "", 0, 0, []engines.Mut{*v.Mut}
+			}
+			rep.Add("c08", &mj, []engines.Violation{v})
+		}
+	})
+	p.Stop = nil
+	if harness != "" {
+		fmt.Fprintln(os.Stderr, "HARNESS ERROR:", harness)
+		return 2
+	}
+	rep.AddSample(jobs[0])
+	rep.AddSample(jobs[len(jobs)-1])
+	rep.Coverage["evaluations"] = evals
+	rep.Coverage["distinct_nontrivial"] = len(distinct)
+	rep.Coverage["pipelines"] = len(pls)
+	rep.Coverage["headers_accepted_and_checked"] = accepted
+	rep.Coverage["rebuilds_that_reported_an_error"] = dropped
+	rep.Coverage["exhaustive"] = skipped == 0
+	rep.Coverage["rule"] = "per pipeline: a tape written by the real write path (dir, files, content update, rename, header-shaped payload, delete) while recording every header the writer signed and the content signed under each; alterations: policy 'all' = every byte position x {b^0x01, b^0x80, 0x00}; 'quick' = every non-zero byte and every third zero byte of header/PAX blocks and every 7th payload byte; 'forge' = the structured forgery list per record (edited embedded header with kept/removed/empty/non-base64/garbage/wrong-packet signature, re-encoded header, swapped signatures, second key, outer size, replaced payload, appended plain/half-wrapped records). Each altered tape is rebuilt with the real verify callbacks; every accepted header must equal a signed one, every restorable file must return the content signed under its header. distinct_nontrivial = distinct (pipeline, record kind, part of the record / forgery)."
+	rep.Assumptions = []string{"single alteration per tape", "structured forgeries only on unencrypted tapes (encrypted ones are covered by byte alterations)", "tape = regular file"}
+	if skipped > 0 {
+		rep.Notes = append(rep.Notes, fmt.Sprintf("budget reached: %d of %d batches not executed", skipped, len(jobs)))
+	}
 	return rep.Finish()
 }
